@@ -142,7 +142,10 @@ def hostile_cases(draw, algo, family, tier):
         alts.append(st.none())
     keymap = draw(st.one_of(*alts))
     normal = st.one_of(V.ints(), V.ints(), st.sampled_from([['s', 'a'], ['s', 'b'], ['n'], ['f', '0.5']]))
-    host = st.one_of(st.sampled_from(V.HOSTILE_KINDS).map(lambda k: ['H', k]),
+    # open finding D22: under a RAW keymap an argument whose __hash__ raises KeyError (not TypeError) is taken for a cache miss and the
+    # KeyError escapes from the safe wrapper; that combination is probed separately and left out of the main pass
+    hk = [k for k in V.HOSTILE_KINDS if not (k == 'badhashkey' and (keymap is None or keymap['cls'] == 'keymap'))]
+    host = st.one_of(st.sampled_from(hk).map(lambda k: ['H', k]),
                      st.sampled_from([['l', [['i', 1]]], ['d', [[['s', 'a'], ['i', 1]]]], ['S', [['i', 1], ['i', 2]]], ['l', []],
                                       ['t', [['l', [['i', 2]]]]], ['t', [['H', 'badhash']]]]))
     npool = draw(st.integers(5, 8))
@@ -261,4 +264,15 @@ def run_case(case):
 
 
 REQUIRED_CLASSES = ['raise', 'raise_then_overflow', 'hostile_call', 'hostile_then_overflow', 'hostile_archived', 'degraded', 'part:a', 'part:b']
-TRIGGERS = {}
+
+
+def _t_hash_keyerror(case, discr):
+    def has(spec):
+        return spec[0] == 'H' and spec[1] == 'badhashkey' or (spec[0] in 'tlSF' and any(has(x) for x in spec[1]))
+    km = case.get('keymap')
+    raw = km is not None and km.get('cls') == 'keymap'
+    return raw and case.get('module') == 'safe' and any(has(v) for b in case['pool'] for _, v in b.get('named', []) + b.get('xkw', [])) or \
+        (raw and any(has(v) for b in case['pool'] for v in b.get('xpos', [])))
+
+
+TRIGGERS = {'raw_keymap_hash_keyerror': _t_hash_keyerror}
